@@ -794,6 +794,133 @@ def rule_r6(chk, db, cfgname, tab):
     chk.count('c06.r6.guarded_accesses', nacc)
 
 
+def rule_r7(chk, db, cfgname, tab):
+    chk.rule('C06.R7', 'check-then-act stays in one critical section: a function that releases a guard and takes it again '
+             're-tests the guarded state before it writes guarded fields in the later section (otherwise two threads '
+             'that both passed the first test both apply the update)')
+    guarded = {}
+    for g in tab['guards']:
+        for fld in g['fields']:
+            guarded[(g['class'], fld)] = g
+    n = 0
+    for fn in db.functions.values():
+        if not fn.get('blocks'):
+            continue
+        li = LockInfo(db, fn)
+        # lock ids acquired more than once in this function
+        byid = {}
+        for (name, d), ids in li.acq.items():
+            for i in ids:
+                byid.setdefault(i, []).append((name, d))
+        multi = {i: v for i, v in byid.items() if len(v) >= 2}
+        if not multi:
+            continue
+        g = C.Cfg(fn)
+        dom = g.dominators()
+        te = lock_transfer(li)
+        # block/index of each acquisition
+        acq_at = {}
+        for b in fn['blocks']:
+            for ev in b['ev']:
+                if ev.get('k') == 'decl':
+                    for v in ev['vars']:
+                        if (v['n'], v['d']) in li.acq:
+                            acq_at[(v['n'], v['d'])] = (b['id'], ev.get('i', 0), ev.get('ln'))
+        for lid, vars_ in multi.items():
+            pts = sorted((acq_at[v] for v in vars_ if v in acq_at), key=lambda x: len(dom.get(x[0], ())))
+            if len(pts) < 2:
+                continue
+            first, later = pts[0], pts[1:]
+            for (lb, li_, lln) in later:
+                if first[0] not in dom.get(lb, ()) and first[0] != lb:
+                    continue        # alternative branches, not a sequence
+                # writes of guarded fields dominated by the later acquisition
+                writes = []
+                tests = []
+                for b in fn['blocks']:
+                    if not (lb in dom.get(b['id'], ()) or b['id'] == lb):
+                        continue
+                    for ev in b['ev']:
+                        if b['id'] == lb and ev.get('i', 0) <= li_:
+                            continue
+                        lhs = None
+                        if ev.get('k') == 'bin' and ev.get('op', '').endswith('=') and ev['op'] not in ('==', '!=', '<=', '>='):
+                            lhs = T.strip(ev['l'])
+                        elif ev.get('k') == 'call' and ev.get('op', '').endswith('=') and \
+                                ev['op'] not in ('==', '!=', '<=', '>=') and ev.get('recv') is not None:
+                            lhs = T.strip(ev['recv'])
+                        if lhs is not None and lhs.get('k') == 'mem' and (lhs.get('cls'), lhs.get('n')) in guarded:
+                            writes.append((lhs['n'], ev.get('ln')))
+                    cond, _ = C.branch_cond(b)
+                    if cond is not None and any(isinstance(y, dict) and y.get('k') == 'mem' and
+                                                (y.get('cls'), y.get('n')) in guarded for y in T.walk(cond)):
+                        tests.append(b['id'])
+                # only writes whose value derives from guarded state read in the EARLIER section are stale-data
+                # updates: locals initialised/assigned from guarded fields before the re-acquisition, closed under
+                # local data flow
+                tainted = set()
+                changed = True
+                while changed:
+                    changed = False
+                    for b in fn['blocks']:
+                        for ev in b['ev']:
+                            pairs = []
+                            if ev.get('k') == 'decl':
+                                pairs = [(v['n'], v.get('init')) for v in ev['vars'] if v.get('init') is not None]
+                            elif ev.get('k') == 'bin' and ev.get('op') == '=' and T.strip(ev['l']).get('k') == 'var':
+                                pairs = [(T.strip(ev['l'])['n'], ev['r'])]
+                            elif ev.get('k') == 'call' and ev.get('op') == '=' and ev.get('recv') is not None and \
+                                    T.strip(ev['recv']).get('k') == 'var' and ev.get('args'):
+                                pairs = [(T.strip(ev['recv'])['n'], ev['args'][0])]
+                            for name, init in pairs:
+                                if name in tainted:
+                                    continue
+                                before = (lb in dom.get(b['id'], ()) and b['id'] != lb) or \
+                                    (b['id'] == lb and ev.get('i', 0) > li_)
+                                src_guarded = (not before) and any(
+                                    isinstance(y, dict) and y.get('k') == 'mem' and (y.get('cls'), y.get('n')) in guarded
+                                    for y in T.walk(init))
+                                src_tainted = any(isinstance(y, dict) and y.get('k') == 'var' and y.get('n') in tainted
+                                                  for y in T.walk(init))
+                                if src_guarded or src_tainted:
+                                    tainted.add(name)
+                                    changed = True
+                stale = []
+                for b in fn['blocks']:
+                    if not (lb in dom.get(b['id'], ()) or b['id'] == lb):
+                        continue
+                    for ev in b['ev']:
+                        if b['id'] == lb and ev.get('i', 0) <= li_:
+                            continue
+                        rhs = None
+                        lhs = None
+                        if ev.get('k') == 'bin' and ev.get('op', '').endswith('=') and ev['op'] not in ('==', '!=', '<=', '>='):
+                            lhs, rhs = T.strip(ev['l']), ev['r']
+                        elif ev.get('k') == 'call' and ev.get('op', '').endswith('=') and \
+                                ev['op'] not in ('==', '!=', '<=', '>=') and ev.get('recv') is not None and ev.get('args'):
+                            lhs, rhs = T.strip(ev['recv']), ev['args'][0]
+                        if lhs is not None and lhs.get('k') == 'mem' and (lhs.get('cls'), lhs.get('n')) in guarded and \
+                                any(isinstance(y, dict) and y.get('k') == 'var' and y.get('n') in tainted
+                                    for y in T.walk(rhs)):
+                            stale.append((lhs['n'], ev.get('ln')))
+                writes = stale
+                if not writes:
+                    continue
+                n += 1
+                ok = bool(tests)
+                chk.obligation(ok, {'function': fn['name'][:70], 'guard': lid, 're-acquired at line': lln,
+                                    'guarded writes in the later section': writes[:4],
+                                    'guarded state re-tested there': ok})
+                if not ok:
+                    chk.violation('C06.R7', fn, '%s re-acquired, writes %s without re-test' % (T.short(lid), writes[0][0]),
+                                  'the function tests the guarded state under %s, releases it, and after taking it '
+                                  'again writes %s without testing the state again: two threads that both saw the '
+                                  'pending state both apply the update (a lost or doubled update, although every '
+                                  'access is locked)' % (lid, ', '.join(sorted({w[0] for w in writes}))),
+                                  line=writes[0][1], cfg=cfgname)
+    chk.count('c06.r7.reacquisitions', n)
+
+
 def main(chk, tier):
     import db as D
     configs = ['seq', 'par'] if tier == 'quick' else ['seq', 'par', 'seq-debug', 'par-debug']
@@ -811,6 +938,7 @@ def main(chk, tier):
         rule_r4(chk, db, cfgname)
         rule_r5(chk, db, cfgname, tab)
         rule_r6(chk, db, cfgname, tab)
+        rule_r7(chk, db, cfgname, tab)
     n = len(configs)
     chk.floor('c06.r1.accesses', 90 * n)
     chk.floor('c06.r1.lock_acquisitions', 15 * n)
